@@ -245,6 +245,13 @@ def run(ctx):
     life.append(dict(src='life', est=name, seed=int(rng.integers(1 << 30)), same_dims=True, ops=c17.directed_ops(name)))
     life.append(dict(src='life', est=name, seed=int(rng.integers(1 << 30)), same_dims=True, indexed=True, ops=c17.directed_ops(name)))
     life.append(dict(src='life', est=name, seed=int(rng.integers(1 << 30)), same_dims=True, ops=c17.copies_ops(name)))
+  # copies on WIDE data (600 features, 60 samples: scikit-learn's PCA then uses its randomized solver): an estimator, its
+  # clone, its unpickled copy and a clone of that copy must learn the same model from the same integer random_state
+  for name in ('NCA', 'LMNN', 'MLKR'):
+    for k in range(1 if ctx.quick else 3):
+      life.append(dict(src='life', est=name, seed=int(rng.integers(1 << 30)), same_dims=True, wide=True,
+                       ops=[['New', 1], ['Clone', 1], ['Pickle', 1], ['Clone', 3], ['Fit', 1, 1], ['Fit', 2, 1], ['Fit', 3, 1], ['Fit', 4, 1],
+                            ['Query', 1, 1], ['Query', 2, 1], ['Query', 3, 1], ['Query', 4, 1]]))
   ctx.rule = ('every constructor parameter of every estimator (names from inspect.signature at run time) x value kinds '
               '%s: construct/get_params/set_params with object identity as tokens; every deprecated alias; every public '
               'method on a fresh object; plus TLC-simulated life-cycle histories with clone / pickle / set_params; '
